@@ -51,7 +51,7 @@ def plan(ctx):
             # every set of one or two erasures + two sampled sets of maximal size (each set costs a decode plus one reconstruct per erased index)
             sets = list(esets(n, 1, min(m, 2)))
             if m > 2:
-                sets += rnd.sample(list(esets(n, m, m)), 2)
+                sets += rnd.sample(list(esets(n, m, m)), min(2, len(list(esets(n, m, m)))))
         for i, ch in enumerate(chunks(sets, 1)):
             obs.append(be_l1_ob(be, k, m, hd, ch, idx=i, timeout=1500, mem=(12 if k >= 8 else 4)))
     if not thorough:
